@@ -74,6 +74,10 @@ structure FData where
   memDir : Option (List (Key × ObjId)) := none      -- nil map for regular files
   deriving Repr, Inhabited
 
+/-- what a handle call does to the file object: new bytes, and the mtime stamp on success -/
+def FData.withIO (d : FData) (data : Bytes) (stamp : Bool) (now : Int) : FData :=
+  { d with data := data, mtime := if stamp then now else d.mtime }
+
 structure MHandle where
   obj : ObjId
   h : Handle := {}
@@ -198,7 +202,7 @@ inductive MRes where
   | str (s : Str)
   | file (o : FOut)                           -- handle I/O (C02 vocabulary)
   | panic
-  deriving Repr, Inhabited
+  deriving DecidableEq, Repr, Inhabited
 
 namespace MemFs
 
@@ -393,10 +397,9 @@ def fileIO (m : MemFs) (hi : Nat) (f : Bytes → Handle → Bytes × Handle × F
   | none => (m, .err .inval)
   | some mh =>
     let d := m.obj mh.obj
-    let (data', h', o) := f d.data mh.h
-    let changed := touch && (match o with | .n _ none => true | .ok => true | _ => false)
-    let m1 := m.setObj mh.obj { d with data := data', mtime := if changed then m.now else d.mtime }
-    ({ m1 with handles := m1.handles.set hi { mh with h := h' } }, .file o)
+    let r := f d.data mh.h
+    let m1 := m.setObj mh.obj (d.withIO r.1 (touch && r.2.2.success) m.now)
+    ({ m1 with handles := m1.handles.set hi { mh with h := r.2.1 } }, .file r.2.2)
 
 def hRead (m : MemFs) (hi len : Nat) : MemFs × MRes :=
   m.fileIO hi (fun d h => let (h', o) := readC d h len; (d, h', o)) false
